@@ -230,7 +230,102 @@ func runProgramOn(c *core.Ctx, fsk core.FSKind, cfg core.Config, keys [][]byte, 
 	return trace, nil
 }
 
+// runC17Huge drives a segment past the 1 GiB initial mapping of fs.OSMMap (three 400 MiB values, then small ones),
+// so that the mapping has to be re-established, and compares every result and the segment bytes with fs.OS.
+func runC17Huge(c *core.Ctx) {
+	core.PinSeed(12345)
+	type res struct {
+		lines []string
+	}
+	run := func(fsk core.FSKind) ([]string, error) {
+		env := core.NewEnvIn(fsk, core.DiskScratch())
+		defer env.Cleanup()
+		cfg := core.Config{}
+		db, err := env.Open(cfg)
+		if err != nil {
+			return nil, err
+		}
+		var lines []string
+		add := func(f string, a ...interface{}) { lines = append(lines, fmt.Sprintf(f, a...)) }
+		big := make([]byte, 400<<20)
+		for i := 0; i < 3; i++ {
+			for j := 0; j < len(big); j += 4096 {
+				big[j] = byte(i + j>>12)
+			}
+			err := db.Put([]byte(fmt.Sprintf("huge-%d", i)), big)
+			add("put huge-%d err=%v", i, err != nil)
+			// read back before the next write: the record lies beyond the previous mapping
+			v, err := db.Get([]byte(fmt.Sprintf("huge-%d", i)))
+			add("get huge-%d len=%d fnv=%x err=%v", i, len(v), fnvOf(v), err != nil)
+		}
+		for i := 0; i < 50; i++ {
+			err := db.Put([]byte(fmt.Sprintf("small-%d", i)), core.MakeVal(i, 100))
+			add("put small-%d err=%v", i, err != nil)
+		}
+		for i := 0; i < 3; i++ {
+			v, err := db.Get([]byte(fmt.Sprintf("huge-%d", i)))
+			add("get huge-%d len=%d fnv=%x err=%v", i, len(v), fnvOf(v), err != nil)
+		}
+		add("count %d", db.Count())
+		for _, sg := range db.VerifSegments() {
+			add("segment %s size=%d", sg.Name, sg.Size)
+		}
+		add("close err=%v", db.Close() != nil)
+		db, err = env.Open(cfg)
+		if err != nil {
+			add("reopen failed")
+			return lines, nil
+		}
+		for i := 0; i < 3; i++ {
+			v, err := db.Get([]byte(fmt.Sprintf("huge-%d", i)))
+			add("get-after-restart huge-%d len=%d fnv=%x err=%v", i, len(v), fnvOf(v), err != nil)
+		}
+		v, err := db.Get([]byte("small-49"))
+		add("get small-49 %x err=%v", v, err != nil)
+		add("close err=%v", db.Close() != nil)
+		return lines, nil
+	}
+	a, err := run(core.FSOS)
+	if err != nil {
+		c.Violation("setup-error", err.Error(), nil)
+		return
+	}
+	b, err := run(core.FSOSMMap)
+	if err != nil {
+		c.Violation("setup-error", err.Error(), nil)
+		return
+	}
+	c.Stat("programs", 1)
+	c.Stat("huge_segment_programs", 1)
+	c.Eval(int64(len(a) + len(b)))
+	c.Distinct("huge", len(a))
+	for i := 0; i < len(a) || i < len(b); i++ {
+		var x, y string
+		if i < len(a) {
+			x = a[i]
+		}
+		if i < len(b) {
+			y = b[i]
+		}
+		if x != y {
+			c.Violation("fs-divergence/osmmap/huge", fmt.Sprintf("segment growing past the 1 GiB initial mapping: line %d differs: fs.OS %q vs fs.OSMMap %q", i, x, y), map[string]interface{}{"trace_os": a, "trace_osmmap": b})
+			return
+		}
+	}
+	for _, l := range a {
+		if strings.Contains(l, "err=true") || strings.Contains(l, "failed") {
+			c.Violation("huge-op-error", "an operation failed on both file systems: "+l, map[string]interface{}{"trace_os": a})
+			return
+		}
+	}
+	c.Sample(map[string]interface{}{"kind": "huge", "trace": a[:8]})
+}
+
 func runC17(c *core.Ctx) {
+	if c.Thorough() && c.Case == 0 {
+		runC17Huge(c)
+		return
+	}
 	rng := c.Rng
 	seed := rng.Uint32()
 	core.PinSeed(seed)
